@@ -164,6 +164,13 @@ impl AwaiterSet {
     /// waker is stored. If the awaiter is already registered, only
     /// the stored waker is replaced.
     ///
+    /// Returns the previously stored waker if one was replaced, or
+    /// `None` for a new registration. Dropping a [`Waker`] may execute
+    /// arbitrary user code which in turn calls back into the owning
+    /// primitive, so the returned waker must be dropped only after the
+    /// caller has released whatever serializes access to the set (its
+    /// lock or its exclusive borrow of the set).
+    ///
     /// The awaiter must not be in the notified state. Call
     /// [`Awaiter::take_notification()`] to consume a pending
     /// notification before re-registering.
@@ -174,7 +181,7 @@ impl AwaiterSet {
     /// from the set (via [`unregister()`][Self::unregister] or
     /// [`notify_one()`][Self::notify_one]).
     #[inline]
-    pub unsafe fn register(&mut self, awaiter: Pin<&mut Awaiter>, waker: Waker) {
+    pub unsafe fn register(&mut self, awaiter: Pin<&mut Awaiter>, waker: Waker) -> Option<Waker> {
         // SAFETY: We do not move the awaiter. Pin guarantees address
         // stability.
         let awaiter = unsafe { awaiter.get_unchecked_mut() };
@@ -189,9 +196,10 @@ impl AwaiterSet {
             // `&mut Awaiter` and no other `Inner` reference is live.
             let inner = unsafe { awaiter.inner_mut() };
             self.debug_assert_owns(inner, "register");
-            // Already registered — update the waker in place.
-            inner.waker = Some(waker);
-            return;
+            // Already registered — update the waker in place. The displaced
+            // waker goes to the caller: dropping it here would run user code
+            // inside the caller's lock scope.
+            return inner.waker.replace(waker);
         }
 
         // New registration — initialize fields and insert.
@@ -228,6 +236,7 @@ impl AwaiterSet {
         self.tail = ptr;
 
         awaiter.set_lifecycle(WAITING, Ordering::Release);
+        None
     }
 
     /// Removes an awaiter from the set, returning it to the idle
@@ -237,12 +246,19 @@ impl AwaiterSet {
     /// already removed from the set by
     /// [`notify_one()`][Self::notify_one]), this is a no-op.
     ///
+    /// Returns the waker that was stored in the awaiter (`None` for the
+    /// no-op case). Dropping a [`Waker`] may execute arbitrary user code
+    /// which in turn calls back into the owning primitive, so the
+    /// returned waker must be dropped only after the caller has released
+    /// whatever serializes access to the set (its lock or its exclusive
+    /// borrow of the set).
+    ///
     /// # Safety
     ///
     /// The awaiter must currently be registered with this set (or
     /// already notified by it).
     #[inline]
-    pub unsafe fn unregister(&mut self, awaiter: Pin<&mut Awaiter>) {
+    pub unsafe fn unregister(&mut self, awaiter: Pin<&mut Awaiter>) -> Option<Waker> {
         // SAFETY: We do not move the awaiter.
         let awaiter = unsafe { awaiter.get_unchecked_mut() };
 
@@ -252,7 +268,7 @@ impl AwaiterSet {
 
         // Notified awaiters were already removed by notify_one().
         if lifecycle != WAITING {
-            return;
+            return None;
         }
 
         // SAFETY: Access is serialized by this `&mut self` lock scope; we hold
@@ -271,17 +287,19 @@ impl AwaiterSet {
         // `inner_ref` borrow has ended (its values were copied into `next`/`prev`),
         // so no other `Inner` reference is live.
         let inner = unsafe { awaiter.inner_mut() };
-        // Drop the waker; the link fields and generation are dead writes in IDLE
-        // (no code path reads them while the awaiter is idle) and `register` fully
-        // overwrites all of them on the next IDLE -> WAITING transition. Clearing
-        // `owning_set_id` in debug builds preserves the "0 = not in any set"
-        // sentinel for diagnostic clarity.
-        drop(inner.waker.take());
+        // Take the waker (transferring ownership to the caller: dropping it here
+        // would run user code inside the caller's lock scope); the link fields and
+        // generation are dead writes in IDLE (no code path reads them while the
+        // awaiter is idle) and `register` fully overwrites all of them on the next
+        // IDLE -> WAITING transition. Clearing `owning_set_id` in debug builds
+        // preserves the "0 = not in any set" sentinel for diagnostic clarity.
+        let waker = inner.waker.take();
         #[cfg(debug_assertions)]
         {
             inner.owning_set_id = 0;
         }
         awaiter.set_lifecycle(IDLE, Ordering::Release);
+        waker
     }
 
     /// Removes one awaiter and returns its waker.
